@@ -1,6 +1,7 @@
 package props
 
 import (
+	"encoding/json"
 	"fmt"
 
 	dbm "github.com/cometbft/cometbft-db"
@@ -37,6 +38,14 @@ func (e *Env) Reimport() bool {
 	}
 	ob := A.Opts
 	e.nImports++
+	if e.nImports%2 == 1 {
+		// a genesis document promises no particular order of its registration lists: every other
+		// import lists the registered WRKChains and BEACONs in reverse identifier order
+		if st, n := reverseRegistrations(ex.AppState); n > 0 {
+			ex.AppState = st
+			e.C.Count("reimports_reordered", 1)
+		}
+	}
 	ob.Home = fmt.Sprintf("%s/home-import-%d", e.C.Scratch, e.nImports)
 	dbB := dbm.NewMemDB()
 	appB := lab.NewApp(dbB, ob)
@@ -61,4 +70,38 @@ func (e *Env) Reimport() bool {
 	e.C.Distinct("history-continued-on-imported-chain")
 	e.tracef("h=%d RE-IMPORT: the history continues on a fresh chain initialised from the export", B.Height)
 	return true
+}
+
+// reverseRegistrations reverses registered_wrkchains / registered_beacons of an exported genesis
+// document (nothing else is touched); n is the number of lists with at least two entries.
+func reverseRegistrations(appState json.RawMessage) (json.RawMessage, int) {
+	var gs map[string]json.RawMessage
+	if json.Unmarshal(appState, &gs) != nil {
+		return appState, 0
+	}
+	n := 0
+	for mod, field := range map[string]string{"wrkchain": "registered_wrkchains", "beacon": "registered_beacons"} {
+		var mg map[string]json.RawMessage
+		if json.Unmarshal(gs[mod], &mg) != nil {
+			continue
+		}
+		var list []json.RawMessage
+		if json.Unmarshal(mg[field], &list) != nil || len(list) < 2 {
+			continue
+		}
+		for i, j := 0, len(list)-1; i < j; i, j = i+1, j-1 {
+			list[i], list[j] = list[j], list[i]
+		}
+		mg[field], _ = json.Marshal(list)
+		gs[mod], _ = json.Marshal(mg)
+		n++
+	}
+	if n == 0 {
+		return appState, 0
+	}
+	out, err := json.Marshal(gs)
+	if err != nil {
+		return appState, 0
+	}
+	return out, n
 }
